@@ -254,7 +254,10 @@ def check(prop: str, tier: str, verif_seed: int) -> int:
             'distinct_histories': len(all_hist),
             'operations_by_kind': {k[3:]: v for k, v in sorted(agg['counters'].items()) if k.startswith('op:')},
             'other_counters': {k: v for k, v in sorted(agg['counters'].items()) if not k.startswith('op:')},
-            'faults_fired_by_kind': dict(sorted(agg['fs_fired'].items())),
+            'faults_fired_by_kind': dict(sorted({**agg['fs_fired'],
+                                                   **{k[6:]: v for k, v in agg['counters'].items() if k.startswith('fault:')},
+                                                   **({'refused-operation': agg['counters']['refused']}
+                                                      if agg['counters'].get('refused') else {})}.items())),
             'faults_planned_by_kind': dict(sorted(agg['faults_planned'].items())),
             'fs_events_by_kind': dict(sorted(agg['fs_kinds'].items())),
             'process_lifetimes': sum(s['lifetimes'] for s in summaries),
@@ -281,7 +284,7 @@ def check(prop: str, tier: str, verif_seed: int) -> int:
         json.dump(ev, f, indent=1, sort_keys=True, default=str)
     os.replace(tmp, path)
     print(f'sessions={len(summaries)} (fault-free {base_n}) distinct_nontrivial={len(distinct)} '
-          f'fs_events={sum(agg["fs_kinds"].values())} faults_fired={agg["fs_fired"]} '
+          f'fs_events={sum(agg["fs_kinds"].values())} faults_fired={ev["coverage"]["faults_fired_by_kind"]} '
           f'violations={len(by_oracle)} known={known_hits} harness_errors={len(harness)} '
           f'wall={wall:.1f}s exit={exit_code}', flush=True)
     return exit_code
